@@ -228,7 +228,7 @@ pub fn plan(property: &str) -> Option<CheckPlan> {
             ],
             real: N_REAL.to_vec(),
             stubbed: N_STUB.to_vec(),
-            items: vec![PlanItem { family: &nsim::reconnect::RECONNECT, quick: 400, thorough: 30_000 }],
+            items: vec![PlanItem { family: &nsim::reconnect::RECONNECT, quick: 432, thorough: 28_800 }],
         }),
         "C13" => Some(CheckPlan {
             property: "C13",
